@@ -97,9 +97,10 @@ QUERY_VALUE_IN_URL_TEMPLATE = r"(?:^|[?&])(%s)=([^&#]+)"
 QUERY_VALUE_TEMPLATE = r"%s=([^&#]+)"
 
 # NOTE: %s should be DOMAIN_LABELS_PREFIX followed by the escaped domain(s)
+# NOTE: the userinfo runs up to the last "@" of the authority and can be empty
 DOMAIN_LABELS_PREFIX = r"(?:[^\s./?#@:]+\.)*"
 DOMAIN_TEMPLATE = (
-    r"^(?:https?:)?(?://)?(?:[^\s/?#@]+@)?%s(?::\d*)?(?:[/?#]|\s*$)"
+    r"^(?:https?:)?(?://)?(?:[^\s/?#]*@)?%s(?::\d*)?(?:[/?#]|\s*$)"
 )
 
 SCRIPT_TAG = r"<script\b[^<]*(?:(?!<\/script>)<[^<]*)*<\/script>"
